@@ -45,7 +45,11 @@ def match_known(v, known):
     for k in known:
         if k["property"] != v["property"]:
             continue
-        if v["sub_claim"] not in k["sub_claims"] or v["failure_mode"] not in k["failure_modes"]:
+        if v["sub_claim"] not in k["sub_claims"]:
+            continue
+        # a listed failure mode ending in '*' stands for every mode with that prefix ("exception:*")
+        if not any(v["failure_mode"] == fm or (fm.endswith("*") and v["failure_mode"].startswith(fm[:-1]))
+                   for fm in k["failure_modes"]):
             continue
         if all(t in v["tags"] for t in k["tags_all"]):
             return k
